@@ -12,6 +12,17 @@ impl ValidationContext {
             Node::TunnelDivert { target, .. } => self.check_target(target)?,
             Node::ThreadDivert(d) => self.check_divert(d)?,
             Node::Choice(c) => {
+                // an arrow inside the choice's own text (`* text -> a -> b`) becomes a divert
+                // when the text is emitted: its target must exist as well
+                if let Some(text) = &c.selected_text
+                    && text.contains("->")
+                {
+                    for n in crate::inline::tokenize_inline_content(text)? {
+                        if matches!(n, Node::Divert(_) | Node::TunnelDivert { .. }) {
+                            self.validate_node_divert(&n)?;
+                        }
+                    }
+                }
                 for n in &c.body {
                     self.validate_node_divert(n)?;
                 }
